@@ -801,7 +801,7 @@ fn dump<'tcx>(tcx: TyCtxt<'tcx>) {
                         let esz: usize = match elem.kind() {
                             ty::Uint(ty::UintTy::U8) | ty::Int(ty::IntTy::I8) => 1,
                             ty::Uint(ty::UintTy::U16) | ty::Int(ty::IntTy::I16) => 2,
-                            ty::Uint(ty::UintTy::U32) | ty::Int(ty::IntTy::I32) => 4,
+                            ty::Uint(ty::UintTy::U32) | ty::Int(ty::IntTy::I32) | ty::Char => 4,
                             ty::Uint(ty::UintTy::U64) | ty::Int(ty::IntTy::I64) | ty::Uint(ty::UintTy::Usize) => 8,
                             _ => 0,
                         };
@@ -821,6 +821,23 @@ fn dump<'tcx>(tcx: TyCtxt<'tcx>) {
                                             arr.push(V::I(v));
                                         }
                                         o.push(("arr", V::A(arr)));
+                                    }
+                                }
+                            }
+                        }
+                    }
+                }
+                // string constants (`const REGEX_CHARS: &str = ".."`): the text, so that a rule can read a character table
+                if matches!(tcx.def_kind(did), DefKind::Const { .. }) {
+                    if let ty::Ref(_, inner, _) = t.kind() {
+                        if inner.is_str() {
+                            if let Ok(rustc_middle::mir::ConstValue::Slice { alloc_id, meta }) = tcx.const_eval_poly(did.to_def_id()) {
+                                if let rustc_middle::mir::interpret::GlobalAlloc::Memory(ca) = tcx.global_alloc(alloc_id) {
+                                    let a = ca.inner();
+                                    let n = meta as usize;
+                                    if n <= a.len() && n <= 4096 {
+                                        let bytes = a.inspect_with_uninit_and_ptr_outside_interpreter(0..n);
+                                        o.push(("str", s(String::from_utf8_lossy(bytes).to_string())));
                                     }
                                 }
                             }
